@@ -274,3 +274,211 @@ def cmp (f : V → V → V) (self : KV V) (other : Other V) : Except Err (KV V) 
     else .ok (self.filterMap (fun q => (get? o q.1).map (fun w => (q.1, f q.2 w))))
 
 end TdVerif.C09
+
+namespace TdVerif.C09
+variable {V : Type}
+
+/-! ### lazy stacks as operands of the fused ops
+
+`LazyStackedTensorDict.items(True, True, is_leaf=_NESTED_TENSORS_AS_LISTS)` (tensordict/_lazy.py:`items`) yields
+the leaves *member by member*, the key prefixed by `str(i)`; the fused methods of `TensorDictBase` then run
+unchanged on that key/value list, and the rebuild (`_fast_apply(…, is_leaf=_NESTED_TENSORS_AS_LISTS)`) hands
+member `i` the items whose key starts with its index. -/
+
+/-- key component naming member `i` (`str(i)` in the code; a unary numeral here so that injectivity is immediate) -/
+def idxKey (i : Nat) : String := String.ofList (List.replicate i 'I')
+
+/-- mirrors tensordict/_lazy.py:`LazyStackedTensorDict.items` in the nested-tensors-as-lists mode -/
+def flattenFrom (i : Nat) : List (KV V) → KV V
+  | [] => []
+  | m :: rest => m.map (fun q => (idxKey i :: q.1, q.2)) ++ flattenFrom (i + 1) rest
+
+def flattenLazy (ms : List (KV V)) : KV V := flattenFrom 0 ms
+
+/-- the items of member `i` of a rebuilt lazy stack -/
+def memberItems (i : Nat) (items : KV V) : KV V :=
+  items.filterMap (fun q => match q.1 with
+    | h :: t => if h = idxKey i then some (t, q.2) else none
+    | [] => none)
+
+def unflattenLazy (n : Nat) (items : KV V) : List (KV V) := (List.range n).map (fun i => memberItems i items)
+
+/-- a fused binary op whose `self` is a lazy stack of `A.length` members, on the *regular* code path (the only
+one on the pinned tree): the flattened items are handed to the fused op as they are -/
+def lazyBinop (f : V → V → V) (A : List (KV V)) (other : Other V) (d : Dflt V) : Except Err (List (KV V)) :=
+  match binop f (flattenLazy A) other d with
+  | .error e => .error e
+  | .ok r => .ok (unflattenLazy A.length r)
+
+/-- how an operand relates to a lazy `self` (tensordict/base.py:`_lazy_stack_memberwise`, fix 0db51f0) -/
+inductive LazyOther (V : Type) where
+  | sameStack (B : List (KV V))   -- a lazy stack with the same stack dim and member count: regular fused path
+  | split (Bs : List (Other V))   -- a regular tensordict, a lazy stack along another dim, a tensor with ndim>0:
+                                  -- `other.unbind(self.stack_dim)`, one operand per member
+  | scalar (s : V)                -- Python scalar / 0-d tensor
+
+/-- `getattr(td, op)(*oth)` for every member (`_zip_strict`) -/
+def memberwise (g : KV V → Other V → Except Err (KV V)) : List (KV V) → List (Other V) → Except Err (List (KV V))
+  | [], [] => .ok []
+  | a :: as, b :: bs =>
+    match g a b with
+    | .error e => .error e
+    | .ok r =>
+      match memberwise g as bs with
+      | .error e => .error e
+      | .ok rs => .ok (r :: rs)
+  | _, _ => .error .value
+
+/-- mirrors the repaired dispatch: an operand that is not stacked like `self` is split along self's stack dim and
+the op runs member by member; otherwise the regular path on the flattened items -/
+def lazyBinopRepaired (f : V → V → V) (A : List (KV V)) (other : LazyOther V) (d : Dflt V) : Except Err (List (KV V)) :=
+  match other with
+  | .sameStack B => lazyBinop f A (.td (flattenLazy B)) d
+  | .scalar s => lazyBinop f A (.scalar s) d
+  | .split Bs => memberwise (fun a b => binop f a b d) A Bs
+
+/-- in-place forms (`_lazy_memberwise_inplace`) -/
+def lazyBinopInplaceRepaired (f : V → V → V) (A : List (KV V)) (other : LazyOther V) : Except Err (List (KV V)) :=
+  match other with
+  | .sameStack B =>
+    match binopInplace f (flattenLazy A) (.td (flattenLazy B)) with
+    | .error e => .error e
+    | .ok r => .ok (unflattenLazy A.length r)
+  | .scalar s =>
+    match binopInplace f (flattenLazy A) (.scalar s) with
+    | .error e => .error e
+    | .ok r => .ok (unflattenLazy A.length r)
+  | .split Bs => memberwise (fun a b => binopInplace f a b) A Bs
+
+/-! ### clamp and where (ternary forms that go through apply / an explicit key loop) -/
+
+/-- a bound of `clamp`: absent, a tensordict, or anything else (number / tensor) -/
+inductive Bound (V : Type) where
+  | none
+  | td (kv : KV V)
+  | scalar (v : V)
+
+/-- mirrors tensordict/base.py:`clamp(min, max)` (no `out=`).  `fmax`/`fmin` are torch's `clamp_max`/`clamp_min`
+(one-sided forms are delegated to the fused binary ops), `f3 x lo hi` is `x.clamp(lo, hi)` with `none` for a missing
+bound.  Two tensordict bounds go through `_fast_apply(lambda x, low, high: …, min, max, default=None)`: every leaf of self
+with the bounds' entries *under the same key* (`None` when a bound lacks the key); mixing a tensordict and a
+non-tensordict bound is a ValueError. -/
+def clamp (fmax fmin : V → V → V) (f3 : V → Option V → Option V → V) (self : KV V) (lo hi : Bound V) :
+    Except Err (KV V) :=
+  match lo, hi with
+  | .none, .none => .error .type                                   -- `self.clamp_max(None)`
+  | .none, .td h => binop fmax self (.td h) .none
+  | .none, .scalar h => binop fmax self (.scalar h) .none
+  | .td l, .none => binop fmin self (.td l) .none
+  | .scalar l, .none => binop fmin self (.scalar l) .none
+  | .td l, .td h => .ok (self.map (fun q => (q.1, f3 q.2 (get? l q.1) (get? h q.1))))
+  | .scalar l, .scalar h => .ok (self.map (fun q => (q.1, f3 q.2 (some l) (some h))))
+  | .td _, .scalar _ => .error .value
+  | .scalar _, .td _ => .error .value
+
+/-- mirrors tensordict/_td.py:`TensorDict.where(condition, other, pad=…)` for a tensordict `other` (`w c x y` is
+`torch.where(c, x, y)`, `cond` / `ncond` the condition and its negation): self's keys first — with other's entry under
+the same key, or the pad value, or KeyError — then the keys only `other` has, with the negated condition and the pad -/
+def whereOp (w : V → V → V → V) (cond ncond : V) (pad : Option V) (self other : KV V) : Except Err (KV V) :=
+  let rec selfPart : KV V → Except Err (KV V)
+    | [] => .ok []
+    | (k, v) :: rest =>
+      match (match get? other k with
+             | some y => Except.ok (w cond v y)
+             | none => match pad with
+               | some p => Except.ok (w cond v p)
+               | none => Except.error Err.key) with
+      | .error e => .error e
+      | .ok r =>
+        match selfPart rest with
+        | .error e => .error e
+        | .ok rs => .ok ((k, r) :: rs)
+  let rec otherPart : KV V → Except Err (KV V)
+    | [] => .ok []
+    | (k, y) :: rest =>
+      if hasKey self k then otherPart rest
+      else
+        match pad with
+        | none => .error .key
+        | some p =>
+          match otherPart rest with
+          | .error e => .error e
+          | .ok rs => .ok ((k, w ncond y p) :: rs)
+  match selfPart self with
+  | .error e => .error e
+  | .ok a =>
+    match otherPart other with
+    | .error e => .error e
+    | .ok b => .ok (a ++ b)
+
+/-! ## `reduce=True` without `dim`: value level
+
+`_cast_reduction(reduce=True)` with no `dim` concatenates ALL values of all leaves (`torch.cat([v.flatten() …])`) and
+reduces that one tensor. Values are exact integers or NaN (`none`), which is enough to tell a reduction of all values
+from a combination of leaf-wise reductions. -/
+
+abbrev Num := Option Int
+
+/-- all values of all leaves, in storage order -/
+def flatAll : KV (List Num) → List Num
+  | [] => []
+  | q :: rest => q.2 ++ flatAll rest
+
+def hasNan : List Num → Bool
+  | [] => false
+  | none :: _ => true
+  | some _ :: r => hasNan r
+def nanSum : List Num → Int
+  | [] => 0
+  | none :: r => nanSum r
+  | some x :: r => x + nanSum r
+def nanProd : List Num → Int
+  | [] => 1
+  | none :: r => nanProd r
+  | some x :: r => x * nanProd r
+def nanCount : List Num → Nat
+  | [] => 0
+  | none :: r => nanCount r
+  | some _ :: r => 1 + nanCount r
+def nanMax : List Num → Option Int
+  | [] => none
+  | none :: r => nanMax r
+  | some x :: r => match nanMax r with | none => some x | some y => some (max x y)
+def nanMin : List Num → Option Int
+  | [] => none
+  | none :: r => nanMin r
+  | some x :: r => match nanMin r with | none => some x | some y => some (min x y)
+
+inductive RedOp where
+  | sum | nansum | prod | mean | nanmean | amax | amin
+  deriving DecidableEq, Repr
+
+/-- value of a full reduction: NaN, an integer, an exact quotient `num / den`, or torch's error on an empty input -/
+inductive RedVal where
+  | nan
+  | int (i : Int)
+  | ratio (num : Int) (den : Nat)
+  | err
+  deriving DecidableEq, Repr
+
+/-- the torch reduction of a 1-d tensor of values -/
+def reduceList (op : RedOp) (l : List Num) : RedVal :=
+  match op with
+  | .sum => if hasNan l then .nan else .int (nanSum l)
+  | .nansum => .int (nanSum l)
+  | .prod => if hasNan l then .nan else .int (nanProd l)
+  | .mean => if hasNan l || l.length == 0 then .nan else .ratio (nanSum l) l.length
+  | .nanmean => if nanCount l == 0 then .nan else .ratio (nanSum l) (nanCount l)
+  | .amax => if l.length == 0 then .err else if hasNan l then .nan else
+      match nanMax l with | some x => .int x | none => .err
+  | .amin => if l.length == 0 then .err else if hasNan l then .nan else
+      match nanMin l with | some x => .int x | none => .err
+
+/-- `td.<op>(reduce=True)`: the reduction of the concatenation of all values -/
+def reduceAll (op : RedOp) (kv : KV (List Num)) : RedVal := reduceList op (flatAll kv)
+
+/-- what reducing leaf by leaf and then reducing the leaf results would give (NOT the specification for means) -/
+def reduceLeafwise (op : RedOp) (kv : KV (List Num)) : List RedVal := kv.map (fun q => reduceList op q.2)
+
+
+end TdVerif.C09
